@@ -88,7 +88,7 @@ pub fn run(tier: &str) -> Result<Report, String> {
     }
     // 1a. networks with unusual variable NAMES (like spare variables, like internal HCTL variable names,
     //     prefix of one another, operator / constant look-alikes): node bound 3 + templates
-    for b in name_nets(3)? {
+    for b in name_nets(3)?.into_iter().chain(decl_nets(3)?) {
         sem::note_network(&mut rep, &b);
         let ctx = NetCtx::new(b.clone(), Labels::default(), "none");
         let mut aa = Alphabet::all_ops(ctx.nprops(), 3);
@@ -294,7 +294,7 @@ pub fn run(tier: &str) -> Result<Report, String> {
     }
     parts.push(json!({"part": "operator slices", "nodes_exactly": m_slice, "slices": if quick { sl.len().div_ceil(7) } else { sl.len() }, "slice_names": sl.iter().map(|s| s.0.clone()).collect::<Vec<_>>(), "formulae": slice_total, "networks": slice_nets}));
     rep.set("parts", json!(parts));
-    rep.rule = "(1) all closed formulae with at most max_nodes nodes over the plain operator set, all closed formulae with at most max_nodes-1 nodes over all nine binary operators that use EW or AW, and the template families (pattern-with-condition family `!{x}: AG EF ({x} & PHI)` etc. on imp1/con2; two-operator nests: every binary over every unary operator in either position; benchmark formulae, two/three-variable quantifier nests with jumps, duplicated sub-formulae with swapped variable roles, one-free-variable sub-formulae with inner quantifiers duplicated at equal and different quantifier depths in both orders) on every core network through model_check_formula, _dirty, model_check_tree, _tree_dirty; (1a) all closed formulae with <= 3 (4) nodes over all operators + templates on four networks whose variable names are unusual as data (Ca_extra_cell / b_extra_1, x / xx, a / ab, EF1 / TRUE); (1e) the same bound on five networks that are unusual as data (constants only, a constant feeding a toggle, 4 variables, an implicit function of 3 regulators, a sink); (1c) deterministic deep quantifier nests (4..10 quantifiers on one branch on 1-variable networks, up to 6 on con2; graphs with as many spare variable sets); (1d) 13 hybrid formulae with closed forms on a frozen 32-variable network whose argument set has a BDD of ~2^17 nodes (large as data), and 8 temporal formulae with closed forms on the same set on a network with two rising chains; (1b) every ordered pair of a pool of closed formulae as a two-element batch through model_check_multiple_formulae(_dirty), each position against the oracle, and batches of 40 (100) formulae with tied heights in three orders through model_check_multiple_formulae(_dirty) / model_check_multiple_trees(_dirty), each position against the oracle; (2) all closed formulae with <= 3 (every 25th network: 4) nodes on every network of the de-duplicated family of ALL 2-variable networks of the grammar; (3) all closed formulae with exactly m nodes in every operator slice (each pair of operator groups x each quantifier, jump included). Every result is compared on every state x valid colour with the explicit-state oracle; distinct_nontrivial = number of distinct (network, verdict table) pairs that are neither empty nor full".into();
+    rep.rule = "(1) all closed formulae with at most max_nodes nodes over the plain operator set, all closed formulae with at most max_nodes-1 nodes over all nine binary operators that use EW or AW, and the template families (pattern-with-condition family `!{x}: AG EF ({x} & PHI)` etc. on imp1/con2; two-operator nests: every binary over every unary operator in either position; benchmark formulae, two/three-variable quantifier nests with jumps, duplicated sub-formulae with swapped variable roles, one-free-variable sub-formulae with inner quantifiers duplicated at equal and different quantifier depths in both orders) on every core network through model_check_formula, _dirty, model_check_tree, _tree_dirty; (1a) all closed formulae with <= 3 (4) nodes over all operators + templates on four networks whose variable names are unusual as data (Ca_extra_cell / b_extra_1, x / xx, a / ab, EF1 / TRUE), two parameter-order networks and three networks built programmatically with variables declared in non-lexicographic order (b,a / c,a,b); (1e) the same bound on five networks that are unusual as data (constants only, a constant feeding a toggle, 4 variables, an implicit function of 3 regulators, a sink); (1c) deterministic deep quantifier nests (4..10 quantifiers on one branch on 1-variable networks, up to 6 on con2; graphs with as many spare variable sets); (1d) 13 hybrid formulae with closed forms on a frozen 32-variable network whose argument set has a BDD of ~2^17 nodes (large as data), and 8 temporal formulae with closed forms on the same set on a network with two rising chains; (1b) every ordered pair of a pool of closed formulae as a two-element batch through model_check_multiple_formulae(_dirty), each position against the oracle, and batches of 40 (100) formulae with tied heights in three orders through model_check_multiple_formulae(_dirty) / model_check_multiple_trees(_dirty), each position against the oracle; (2) all closed formulae with <= 3 (every 25th network: 4) nodes on every network of the de-duplicated family of ALL 2-variable networks of the grammar; (3) all closed formulae with exactly m nodes in every operator slice (each pair of operator groups x each quantifier, jump included). Every result is compared on every state x valid colour with the explicit-state oracle; distinct_nontrivial = number of distinct (network, verdict table) pairs that are neither empty nor full".into();
     Ok(rep)
 }
 
